@@ -62,7 +62,7 @@ CLAIMED.update({
             "The initiating or accepting side runs against a real local store actor over SimPipes; the other side is the real counterpart or a scripted peer sending up to 6 frames over {Init known/unknown (a third of them already carrying entries), Sync, made-up ranges, Abort, garbage, oversized, truncated} then close; streams are chunked and cut (EOF/reset) after any byte in either direction; the local replica is closed, sync-disabled or its actor shut down before any delivered frame; the accept callback allows or declines. Oracles: no panic (including collecting the acceptor's outcome), termination once nothing is in flight, protocol-violating frames make the session fail, a declined request sends Abort and leaves the store unchanged, mutual success has mirrored counts.",
             "Mirrored counts are only demanded when no stream cut fired (a transport that accepts bytes, drops them and then signals a clean end cannot be detected by either end of this protocol).", "5 C10"),
     "C11": ("exploration", TECH,
-            "Two or three real LiveActors (real store actors; Endpoint/Gossip/blob store constructed but idle) in any id order that sync one or two documents, every (document, pair) being a lane with its own oracles while the other lanes carry traffic; a guarded dial seam hands every dial to the driver which decides delivery, loss or breakage of each request, delivery or loss of declines, and independent ok/failed completion of both ends of each session, plus neighbour-up and sync-report events; safety after every step (no two sessions in progress, exactly one accept on a mutual simultaneous dial, exactly one follow-up dial after a refused news report, NotFound for unknown documents) and progress at quiescence (both idle, able to dial and to accept). A second batch (coord-real) runs every dial as the real run_alice and every delivered request as the real BobState::run + into_outcome over SimPipes that the driver releases frame by frame, cuts or resets, while in a third of the runs a replica is closed or has its sync switch flipped underneath its live actor.",
+            "Two or three real LiveActors (real store actors; Endpoint/Gossip/blob store constructed but idle) in any id order that sync one or two documents, every (document, pair) being a lane with its own oracles while the other lanes carry traffic; a guarded dial seam hands every dial to the driver which decides delivery, loss or breakage of each request, delivery or loss of declines, and independent ok/failed completion of both ends of each session, plus neighbour-up and sync-report events; safety after every step (no two sessions in progress, exactly one accept on a mutual simultaneous dial, exactly one follow-up dial after a refused news report, NotFound for unknown documents, for documents held but not synced, for documents the node has left, and after a failed start) and progress at quiescence (both idle, able to dial and to accept). A second batch (coord-real) runs every dial as the real run_alice and every delivered request as the real BobState::run + into_outcome over SimPipes that the driver releases frame by frame, cuts or resets, while in a third of the runs a replica is closed or has its sync switch flipped underneath its live actor.",
             "Connection handling of connect_and_sync / handle_connection is replaced by the seam (in coord the session results are synthetic, in coord-real they come from the real wire sessions). Changing which documents are syncing mid-session is outside the property's quantifier.", "5 C11"),
     "C12": ("exploration", TECH,
             "One real store actor with 0-4 subscribers (channel capacities 1-32) that the driver drains, pauses, unsubscribes or drops at plan-chosen instants (also while the actor is blocked sending to them); local inserts/deletions, valid/superseded/badly signed remote inserts, reconciliation messages interleaved with local writes, policy changes; in half of the runs a neighbouring document of the same store with its own subscriber and policy takes writes and policy changes in between; capability imports on the open document (which may start read-only), additional handles opened and released, the sync switch; every subscriber must have received exactly the applied entries, once, in application order, with the right variant, peer, content status and download flag.",
